@@ -10,15 +10,19 @@ Open Scope Z_scope.
    C19_monotone_partial holds for them *)
 Definition J (c : cfg) (pre : list tok) (s : lstate) : Prop :=
   clock_ok c (istate0 c) (pre ++ l_toks s) = true /\
+  bars_exact c (istate0 c) (pre ++ l_toks s) = true /\
   info_run c (pre ++ l_toks s) (istate0 c) = mkis (l_time s) (l_tbar s) (l_total s) (l_rem s).
 
 Lemma J_app : forall c pre s l s',
   J c pre s -> l_toks s' = (l_toks s ++ l)%list ->
   clock_ok c (mkis (l_time s) (l_tbar s) (l_total s) (l_rem s)) l = true ->
+  bars_exact c (mkis (l_time s) (l_tbar s) (l_total s) (l_rem s)) l = true ->
   info_run c l (mkis (l_time s) (l_tbar s) (l_total s) (l_rem s)) = mkis (l_time s') (l_tbar s') (l_total s') (l_rem s') ->
   J c pre s'.
 Proof.
-  intros c pre s l s' [J1 J2] Ht Hc Hr. unfold J. rewrite Ht, app_assoc, (clock_ok_app c (pre ++ l_toks s) l), (info_run_app c (pre ++ l_toks s) l), J1, J2, Hc, Hr. auto.
+  intros c pre s l s' (J1 & J3 & J2) Ht Hc Hb Hr. unfold J.
+  rewrite Ht, app_assoc, (clock_ok_app c (pre ++ l_toks s) l), (bars_exact_app c (pre ++ l_toks s) l),
+    (info_run_app c (pre ++ l_toks s) l), J1, J2, J3, Hc, Hb, Hr. auto.
 Qed.
 
 Lemma apply_rest_J : forall c pre fuel s buf s',
@@ -40,10 +44,12 @@ Proof.
     - inversion Ev; subst. apply last_in, Hne.
     - unfold largest_le in Ev. apply last_opt_in in Ev. apply filter_In in Ev as [Ev _]. exact Ev. }
   apply Hpos in Hv. apply IH in H; [exact H|].
-  eapply J_app; [exact F|cbn [l_toks]; reflexivity| |].
+  eapply J_app; [exact F|cbn [l_toks]; reflexivity| | |].
   - destruct (l_rem s - v =? 0) eqn:E; cbn [app clock_ok]; unfold info_next; cbn [info_step fst i_rem].
     + apply Z.eqb_eq in E. repeat (apply andb_true_iff; split); try reflexivity; apply Z.leb_le; lia.
     + repeat (apply andb_true_iff; split); try reflexivity; apply Z.leb_le; lia.
+  - destruct (l_rem s - v =? 0) eqn:E; cbn [app bars_exact]; unfold info_next; cbn [info_step fst i_rem]; [|reflexivity].
+    rewrite E. reflexivity.
   - destruct (l_rem s - v =? 0) eqn:E; unfold info_run; cbn [app fold_left]; unfold info_next;
       cbn [info_step fst i_time i_tbar i_total i_rem l_time l_tbar l_total l_rem]; [|reflexivity].
     apply Z.eqb_eq in E. f_equal; lia.
@@ -69,12 +75,12 @@ Qed.
 
 Lemma info_run_nonclock : forall c l s,
   Forall (fun t => match t with TTrk _ | TVal _ | TVel _ | TNote _ _ _ _ => True | _ => False end) l ->
-  info_run c l s = s /\ clock_ok c s l = true.
+  info_run c l s = s /\ clock_ok c s l = true /\ bars_exact c s l = true.
 Proof.
-  intros c l s F; revert s; induction F as [|t l Ht F IH]; intros s; [split; reflexivity|].
-  unfold info_run in *; cbn [fold_left clock_ok].
+  intros c l s F; revert s; induction F as [|t l Ht F IH]; intros s; [repeat split; reflexivity|].
+  unfold info_run in *; cbn [fold_left clock_ok bars_exact].
   assert (E : info_next c s t = s) by (destruct t; try contradiction; reflexivity).
-  rewrite E. destruct (IH s) as [A B]. rewrite A, B. destruct t; try contradiction; auto.
+  rewrite E. destruct (IH s) as (A & B & C). rewrite A, B, C. destruct t; try contradiction; auto.
 Qed.
 
 Lemma note_tok_nonclock : forall c s ch pit val vel,
@@ -103,7 +109,7 @@ Proof.
     destruct (m_num m * DEFAULT_TS_DEN mod m_den m =? 0) eqn:Emod; cbn [negb] in H; [apply Z.eqb_eq in Emod|discriminate].
     destruct (negb ((c_tslo c <=? m_num m * DEFAULT_TS_DEN / m_den m) && (m_num m * DEFAULT_TS_DEN / m_den m <=? c_tshi c)));
       [discriminate|].
-    inversion H; subst s'; clear H. eapply J_app; [exact F1|cbn [l_toks]; reflexivity|reflexivity|].
+    inversion H; subst s'; clear H. eapply J_app; [exact F1|cbn [l_toks]; reflexivity|reflexivity|reflexivity|].
     unfold info_run; cbn [fold_left]. unfold info_next; cbn [info_step i_tbar]. rewrite Eb. cbn [fst].
     cbn [l_time l_tbar l_total l_rem i_time]. rewrite Hts, bar_cap_scaled by exact Emod. reflexivity.
   - (* NOTE_ON *)
@@ -112,8 +118,8 @@ Proof.
     destruct (negb (memZ (p_off_time (snd e) - m_time m) (c_values c))); [discriminate|].
     inversion H; subst s'; clear H.
     destruct (info_run_nonclock c _ (mkis (l_time s1) (l_tbar s1) (l_total s1) (l_rem s1))
-                (note_tok_nonclock c s1 (m_chan m) (m_note m) (p_off_time (snd e) - m_time m) vel)) as [A B].
-    eapply J_app; [exact F1|cbn [l_toks]; reflexivity|exact B|rewrite A; reflexivity].
+                (note_tok_nonclock c s1 (m_chan m) (m_note m) (p_off_time (snd e) - m_time m) vel)) as (A & B & C).
+    eapply J_app; [exact F1|cbn [l_toks]; reflexivity|exact B|exact C|rewrite A; reflexivity].
 Qed.
 
 Lemma foldM_tok_event_J : forall c pre shift evs s s',
@@ -171,18 +177,18 @@ Qed.
 (* "the tokens emitted so far (pre) and the persistent tokeniser state st are in sync": get_info's clock after pre is
    the tokeniser's clock, and pre satisfies the side condition of C19_monotone_clock_ok *)
 Definition synced (c : cfg) (pre : list tok) (st : tstate) : Prop :=
-  clock_ok c (istate0 c) pre = true /\
+  clock_ok c (istate0 c) pre = true /\ bars_exact c (istate0 c) pre = true /\
   info_run c pre (istate0 c) = mkis (t_time st) (t_tbar st) (bar_cap c (t_num st) (t_den st)) (t_rem st).
 
 Lemma synced_init : forall c, synced c [] (tstate0 c).
-Proof. intros c; split; reflexivity. Qed.
+Proof. intros c; repeat split; reflexivity. Qed.
 
 (* one tokenise call, from ANY persistent state that is in sync with the tokens emitted before *)
 Theorem tokenise_synced : forall c st tracks toks st' pre,
   DEFAULT_TS_NUM = DEFAULT_TS_DEN -> (forall v, In v (c_steps c) -> 0 <= v) ->
   tokenise c st tracks = Ok (toks, st') -> synced c pre st -> synced c (pre ++ toks) st'.
 Proof.
-  intros c st tracks toks st' pre Hts Hpos H [S1 S2]. unfold tokenise in H.
+  intros c st tracks toks st' pre Hts Hpos H (S1 & S3 & S2). unfold tokenise in H.
   destruct (negb (lenZ tracks =? c_ntracks c)); [discriminate|].
   destruct (tok_frontend tracks) as [evs|]; cbn [rbind] in H; [|discriminate].
   match type of H with (do s1 <- foldM ?f evs ?x; _) = _ =>
@@ -198,7 +204,7 @@ Proof.
   assert (F2 : J c pre s2 /\ T c s2).
   { destruct (((0 <? l_tbar s1) || l_has s1) && (0 <? l_rem s1))%bool; [|inversion E2; subst; auto].
     split; [eapply apply_rest_J; eassumption|eapply apply_rest_T; eassumption]. }
-  inversion H; subst. destruct F2 as [[A B] C]. split; [exact A|]. rewrite B. unfold T in C.
+  inversion H; subst. destruct F2 as [(A & A' & B) C]. split; [exact A|]. split; [exact A'|]. rewrite B. unfold T in C.
   cbn [t_time t_tbar t_num t_den t_rem]. rewrite C. reflexivity.
 Qed.
 
@@ -230,14 +236,14 @@ Qed.
 Theorem tokenise_clock : forall c pieces toks st',
   DEFAULT_TS_NUM = DEFAULT_TS_DEN -> (forall v, In v (c_steps c) -> 0 <= v) ->
   tokenise_many c (tstate0 c) pieces = Ok (toks, st') ->
-  clock_ok c (istate0 c) toks = true /\
+  clock_ok c (istate0 c) toks = true /\ bars_exact c (istate0 c) toks = true /\
   i_time (info_run c toks (istate0 c)) = t_time st' /\
   i_tbar (info_run c toks (istate0 c)) = t_tbar st' /\
   i_rem (info_run c toks (istate0 c)) = t_rem st'.
 Proof.
   intros c pieces toks st' Hts Hpos H.
-  destruct (tokenise_many_synced c pieces _ _ _ [] Hts Hpos H (synced_init c)) as [A B].
-  cbn [app] in A, B. split; [exact A|]. rewrite B. cbn. auto.
+  destruct (tokenise_many_synced c pieces _ _ _ [] Hts Hpos H (synced_init c)) as (A & A' & B).
+  cbn [app] in A, A', B. split; [exact A|]. split; [exact A'|]. rewrite B. cbn. auto.
 Qed.
 
 Theorem C19_monotone_many : forall c imp pieces toks st' j k,
@@ -262,7 +268,7 @@ Qed.
 (* for tokenise output the clock of get_info IS the tokeniser's clock (time, time in bar, remaining capacity) *)
 Theorem C19_tokenise_clock : forall c pieces toks st',
   tokenise_many c (tstate0 c) pieces = Ok (toks, st') -> valid_cfg c = true -> DEFAULT_TS_NUM = DEFAULT_TS_DEN ->
-  clock_ok c (istate0 c) toks = true /\
+  clock_ok c (istate0 c) toks = true /\ bars_exact c (istate0 c) toks = true /\
   i_time (info_run c toks (istate0 c)) = t_time st' /\
   i_tbar (info_run c toks (istate0 c)) = t_tbar st' /\
   i_rem (info_run c toks (istate0 c)) = t_rem st'.
@@ -331,3 +337,46 @@ Definition ex_tracks : list (list msg) :=
 Example ex_tokenise : exists toks st',
   tokenise ex_cfg (tstate0 ex_cfg) ex_tracks = Ok (toks, st') /\ (length toks = 11)%nat /\ valid_cfg ex_cfg = true.
 Proof. vm_compute. eexists; eexists; repeat split; reflexivity. Qed.
+
+(* annotated times CAN decrease on a stream of vocabulary tokens that no tokenise call produces: rests overrunning the
+   bar make the remaining capacity negative and the bar token then moves the clock backwards (both in get_info and
+   in detokenise, which stay in lock-step) *)
+Example monotone_needs_clock_ok :
+  let ts := [TRest 24; TRest 24; TRest 24; TRest 24; TRest 24; TBar; TSto] in
+  Forall (fun t => In t (vocab ex_cfg)) ts /\ clock_ok ex_cfg (istate0 ex_cfg) ts = false /\
+  f_time (get_info ex_cfg false ts) = [0; 24; 48; 72; 96; 120; 96].
+Proof.
+  cbv zeta. split; [|split; vm_compute; reflexivity].
+  repeat (apply Forall_cons; [apply vocab_iff; vm_compute; auto 10|]). apply Forall_nil.
+Qed.
+
+Theorem C19_monotone_needs_clock_ok : exists c ts,
+  valid_cfg c = true /\ Forall (fun t => In t (vocab c)) ts /\ clock_ok c (istate0 c) ts = false /\
+  nth 5 (f_time (get_info c false ts)) 0 = 120 /\ nth 6 (f_time (get_info c false ts)) 0 = 96.
+Proof.
+  exists ex_cfg, [TRest 24; TRest 24; TRest 24; TRest 24; TRest 24; TBar; TSto].
+  destruct monotone_needs_clock_ok as (A & B & C). cbv zeta in A, B, C.
+  split; [vm_compute; reflexivity|]. split; [exact A|]. split; [exact B|]. rewrite C. split; reflexivity.
+Qed.
+
+Example ex_vocab_stream : valid_cfg ex_cfg = true /\ Forall (fun t => In t (vocab ex_cfg)) ex_toks /\
+  nth_error ex_toks 5 = Some (TNote (Some 1) 62 None (Some 48)).
+Proof.
+  split; [vm_compute; reflexivity|]. split; [|reflexivity].
+  repeat (apply Forall_cons; [apply vocab_iff; vm_compute; auto 10|]). apply Forall_nil.
+Qed.
+Example ex_tokenise_many : exists toks st',
+  tokenise_many ex_cfg (tstate0 ex_cfg) [ex_tracks; ex_tracks] = Ok (toks, st') /\ (length toks = 22)%nat /\ t_time st' = 192.
+Proof. vm_compute. eexists; eexists; repeat split; reflexivity. Qed.
+
+(* in tokenise output every bar token closes an exactly filled bar, so "the start of the bar" used by C19_tbar is the
+   annotated time of the most recent bar token *)
+Theorem C19_bar_start_tokenise : forall c imp pieces toks st' k,
+  tokenise_many c (tstate0 c) pieces = Ok (toks, st') -> valid_cfg c = true -> DEFAULT_TS_NUM = DEFAULT_TS_DEN ->
+  nth_error toks k = Some TBar ->
+  bar_start c toks (S k) = nth k (f_time (get_info c imp toks)) 0.
+Proof.
+  intros c imp pieces toks st' k H Hv Hts Hk.
+  destruct (C19_tokenise_clock c pieces toks st' H Hv Hts) as (_ & Hb & _).
+  apply C19_bar_start_exact; assumption.
+Qed.
